@@ -359,6 +359,27 @@ class FamilyC17:
                 if (q == r2) or (r2 == q) or q.is_hashable():
                     add("impl-vs-spec", f"a query with a map function in its path compares equal / is hashable: {q!r} vs {r2!r}",
                         dict(q1=["special"], q2=["special"], what="map-equal-special"))
+        # further shapes outside the Lean vocabulary, on the real objects only: equal queries must evaluate alike
+        ex = py_extras(tf)
+        ex_names = sorted(ex)
+        ex_evals = {k: tuple(impl_eval(tf, ex[k], po) for po in pobjs) for k in ex_names}
+        for a in ex_names:
+            for b in ex_names:
+                comm += 1
+                try:
+                    e = bool(ex[a] == ex[b])
+                except Exception:
+                    e = False
+                if e and ex_evals[a] != ex_evals[b]:
+                    k = next(t for t in range(len(U)) if ex_evals[a][t] != ex_evals[b][t])
+                    add("impl-vs-spec", f"{a} == {b} but they evaluate differently on {V.sx(U[k])}: {ex_evals[a][k]} vs {ex_evals[b][k]}",
+                        dict(q1=["py", a], q2=["py", b], point=U[k], what="equal-but-different-py"))
+                elif e:
+                    try:
+                        if hash(ex[a]) != hash(ex[b]):
+                            add("impl-vs-spec", f"{a} == {b} but hashes differ", dict(q1=["py", a], q2=["py", b], what="equal-but-hash-differs-py"))
+                    except TypeError:
+                        pass
         if model_ok:
             model = C.run_driver("modeldriver", lines)
             for k, (i, j) in enumerate(pairs):
@@ -382,8 +403,56 @@ class FamilyC17:
         return False
 
 
+def _has_prefix(v, prefixes):
+    # str.startswith accepts a tuple of prefixes and rejects a list
+    try:
+        return isinstance(v, str) and v.startswith(prefixes)
+    except TypeError:
+        return False
+
+
+def _member(v, coll):
+    return isinstance(coll, (list, tuple, set, frozenset)) and type(coll).__name__ in ("list", "set") and v in coll
+
+
+def py_extras(tf):
+    """queries the line protocol has no term for: naive comparison values, container arguments of `test`,
+    booleans vs numbers, str subclasses of the same text"""
+    naive = V.dt_of(T0).replace(tzinfo=None)
+    aware = V.dt_of(T0)
+    import operator as O
+
+    E = {}
+    for nm, op in (("eq", O.eq), ("ne", O.ne), ("lt", O.lt), ("le", O.le), ("gt", O.gt), ("ge", O.ge)):
+        E[f"TimeQuery() {nm} naive"] = op(tf.TimeQuery(), naive)
+        E[f"TimeQuery() {nm} aware"] = op(tf.TimeQuery(), aware)
+        E[f"~(TimeQuery() {nm} naive)"] = ~op(tf.TimeQuery(), naive)
+        E[f"FieldQuery().f {nm} 1"] = op(tf.FieldQuery().f, 1)
+        E[f"FieldQuery().f {nm} True"] = op(tf.FieldQuery().f, True)
+        E[f"FieldQuery().f {nm} 1.0"] = op(tf.FieldQuery().f, 1.0)
+    E["a.test(prefix, ('x','y'))"] = tf.TagQuery().a.test(_has_prefix, ("x", "y"))
+    E["a.test(prefix, ['x','y'])"] = tf.TagQuery().a.test(_has_prefix, ["x", "y"])
+    E["~a.test(prefix, ('x','y'))"] = ~tf.TagQuery().a.test(_has_prefix, ("x", "y"))
+    E["~a.test(prefix, ['x','y'])"] = ~tf.TagQuery().a.test(_has_prefix, ["x", "y"])
+    E["a.test(member, ['x'])"] = tf.TagQuery().a.test(_member, ["x"])
+    E["a.test(member, ('x',))"] = tf.TagQuery().a.test(_member, ("x",))
+    E["a.test(prefix, 'x')"] = tf.TagQuery().a.test(_has_prefix, "x")
+    E["a.test(prefix, ('x',))"] = tf.TagQuery().a.test(_has_prefix, ("x",))
+    return E
+
+
 def replay_c17(payload):
     tf = C.import_tinyflux()
+    if payload.get("what", "").endswith("-py"):
+        ex = py_extras(tf)
+        q1, q2 = ex[payload["q1"][1]], ex[payload["q2"][1]]
+        print(f"{payload['q1'][1]}  ==  {payload['q2'][1]} : {q1 == q2}")
+        if payload.get("point"):
+            p = V.build_point(payload["point"], tf)
+            a, b = impl_eval(tf, q1, p), impl_eval(tf, q2, p)
+            print(f"on {V.sx(payload['point'])}: {a} vs {b}")
+            return bool(q1 == q2) and a != b
+        return bool(q1 == q2)
     if payload.get("what") == "map-equal-special":
         q = tf.TagQuery().map(lambda d: {"z": "v"}).z == "v"
         print("TagQuery().map(f).z == 'v': hashable", q.is_hashable(), "equal to itself", q == q)
